@@ -14,7 +14,9 @@
     spawn i       action plugin calls Spawn(event, nodes): the pooled event becomes the child-parent
                   (SetChildParentKind), its children are fresh non-pooled events (finOther); ActionBreak
     out i         processSequence: router.Out(event)
-    commit i      output calls Commit → finalize(event, true, true)
+    commit i      output calls Commit → finalize(event, true, true); with a batching output it is
+                  Batcher.commitBatch that commits EVERY event of the batch, whatever its kind became
+                  (regular or child-parent; children are not pooled: finOther)
     finOther      finalize of a child or time-out event: returns before any pool call
     detachProc    the processor leaves the stream (processEvent returns: `busyActionsTotal == 0`, i.e. no
                   action holds an event, and the event it worked on is finished)
